@@ -161,6 +161,22 @@ def check_case(ctx, tpl_rsmi, tpl_kind, sub, d, flags, wit, tag, origin):
                                   f"with embed_threshold={thr} ({strategy}) the result set changes when the substrate is rewritten: {len(t0['std'])} vs {len(t1['std'])} reactions",
                                   finding=finding)
                     break
+    # the component-aware and fallback strategies must not depend on the writing of the substrate either
+    if "." in sub:
+        for strategy in ("comp", "bt"):
+            c_a = exec_one(sub, tpl_of(tpl_rsmi), invert, strategy, flags)
+            s2 = corpus.rewrite_side(sub, rng)
+            if "error" in c_a or not s2:
+                continue
+            c_b = exec_one(s2, tpl_of(tpl_rsmi), invert, strategy, flags)
+            if "error" in c_b:
+                continue
+            ctx.count("relation/rewrite_" + strategy)
+            if c_a["std"] != c_b["std"]:
+                finding = classify(ctx, sub, tpl_of(tpl_rsmi), s2, tpl_of(tpl_rsmi), invert, strategy, flags)
+                ctx.violation("depends-on-substrate-writing", {**wit, "relation": "rewrite", "strategy": strategy, "variant_substrate": s2,
+                                                                "n": [len(c_a["std"]), len(c_b["std"])]},
+                              f"{strategy}: result set changes when the substrate is rewritten ({len(c_a['std'])} vs {len(c_b['std'])} reactions)", finding=finding)
     # strategy lattice
     comp = exec_one(sub, tpl_of(tpl_rsmi), invert, "comp", flags)
     bt = exec_one(sub, tpl_of(tpl_rsmi), invert, "bt", flags)
